@@ -26,6 +26,7 @@ from pathlib import Path
 from harness import c09lib as L
 
 ALPH = "abcdefghijklmnopqrstuvwxyzABCDEFGHIJKLMNOPQRSTUVWXYZ0123456789_-+."
+ALPH_WIDE = ALPH + "αβΔéñ−′Å"        # names are text: Greek, accents, a typographic minus, a prime
 
 
 # --------------------------------------------------------------------------------------
@@ -157,8 +158,8 @@ def corpus_samples(ctx, work: Path):
         d = work / ("corpus_" + p.stem)
         d.mkdir(exist_ok=True)
         fx, fm = d / "corpus.xyz", d / "corpus.mol2"
-        fx.write_text(obj["xyz"])
-        fm.write_text(obj["mol2"])
+        fx.write_text(obj["xyz"], encoding="utf-8")
+        fm.write_text(obj["mol2"], encoding="utf-8")
         out.append(make_sample({"xyz": fx, "mol2": fm, "cdxml": REPO / "molli" / "files" / "charges_mult.cdxml"}, work,
                                obj.get("tag", "corpus:" + p.stem), {"xyz": obj["xyz"], "mol2": obj["mol2"]}))
         ctx.count("samples:corpus")
@@ -171,9 +172,12 @@ def make_sample(files: dict, work: Path, tag: str, texts):
 
     try:
         objs = L.make_objs(files["mol2"])
+        plain = L.make_objs(files["mol2"], decorate=False)
     except Exception:  # noqa: BLE001 - e.g. the emptied bundled file
         objs = L.make_objs(REPO / "molli" / "files" / "pentane_confs.mol2")
+        plain = L.make_objs(REPO / "molli" / "files" / "pentane_confs.mol2", decorate=False)
     s = L.Sample(files, objs, work, tag)
+    s.objs_plain = plain
     s.texts = texts
     return s
 
@@ -182,7 +186,8 @@ ELEMENTS = ["H", "C", "N", "O", "F", "P", "S", "Cl", "Br", "Fe", "Pd", "Si", "B"
 
 
 def random_name(rng) -> str:
-    return "".join(rng.choice(ALPH) for _ in range(rng.range(1, 12)))
+    alph = ALPH_WIDE if rng.chance(1, 2) else ALPH
+    return "".join(rng.choice(alph) for _ in range(rng.range(1, 12)))
 
 
 def generated_sample(ctx, work: Path, i: int):
@@ -220,8 +225,8 @@ def generated_sample(ctx, work: Path, i: int):
     d = work / f"gen{i}"
     d.mkdir(exist_ok=True)
     fx, fm = d / f"{name}.xyz", d / f"{name}.mol2"
-    fx.write_text(xyz_text)
-    fm.write_text(mol2_text)
+    fx.write_text(xyz_text, encoding="utf-8")
+    fm.write_text(mol2_text, encoding="utf-8")
     cdxs = sorted((REPO / "molli" / "files").glob("*.cdxml"))
     cdx = cdxs[rng.below(len(cdxs))] if not ctx.quick() else REPO / "molli" / "files" / "charges_mult.cdxml"
     ctx.count(f"generated:n_atoms={nat}")
@@ -323,13 +328,21 @@ def content_cell(ctx, spy, cell, sample, fmt_for_unsupported=None):
         if e == "dump" and k == "path":
             variants += [("str-path", dict(fmt=f, path_as_str=True)), ("mode-w", dict(fmt=f, mode="w")),
                          ("append-existing", dict(fmt=f, mode="a-existing"))]
+        if e in ("dump", "dumps") and hasattr(sample, "objs_plain"):
+            variants += [("ascii-only-object", dict(fmt=f, plain=True))]
     done = 0
     for vname, v in variants:
-        with warnings.catch_warnings():
-            warnings.simplefilter("ignore")
-            obs = L.call_entry(spy, cell, sample, v["fmt"], path_as_str=v.get("path_as_str", False), mode=v.get("mode"),
-                               out_name=f"out_{o}")
-            ref, rex = L.class_call(cell, sample, name=name)
+        keep = sample.objs
+        if v.get("plain"):
+            sample.objs = sample.objs_plain       # the same objects with ASCII-only name and labels
+        try:
+            with warnings.catch_warnings():
+                warnings.simplefilter("ignore")
+                obs = L.call_entry(spy, cell, sample, v["fmt"], path_as_str=v.get("path_as_str", False), mode=v.get("mode"),
+                                   out_name=f"out_{o}")
+                ref, rex = L.class_call(cell, sample, name=name)
+        finally:
+            sample.objs = keep
         done += 1
         ctx.count(f"content:{e}:{f}")
         tag = (cell, sample, vname)
